@@ -708,7 +708,12 @@ def slog(x):
             return NaN("log of negative")
         if x == 0:
             return -INF
-    return ufun("log", x)
+    r = ufun("log", x)
+    ex = core.EX
+    if getattr(ex, "_log_axiom_path", None) != ex.stats.paths:
+        ex._log_axiom_path = ex.stats.paths
+        ex.add(_UF[("log", 1)](z3.RealVal(1)) == 0)       # log(1) = 0: the one value of log that is fixed
+    return r
 
 
 def sexp(x):
@@ -756,11 +761,120 @@ def fresh_bool(name):
     return SBool(z3.Bool(fresh_name(name)))
 
 
+_MATH_UF = {"log": math.log, "exp": math.exp, "sqrt": math.sqrt, "pow": lambda a, b: float(a) ** float(b)}
+
+
+def _has_uf(e, seen=None):
+    seen = set() if seen is None else seen
+    stack = [e]
+    while stack:
+        t = stack.pop()
+        if t.get_id() in seen:
+            continue
+        seen.add(t.get_id())
+        if z3.is_app(t):
+            d = t.decl()
+            if d.kind() == z3.Z3_OP_UNINTERPRETED and t.num_args() > 0 and d.name() in _MATH_UF:
+                return True
+            stack.extend(t.children())
+    return False
+
+
+def eval_numeric(e, model):
+    """evaluate a Real/Int/Bool term under a model with the uninterpreted log/exp/sqrt/pow replaced by the true
+    functions (floating point) -- used for path witnesses whose symbolic result mentions them"""
+    cache = {}
+
+    def ev(t):
+        k = t.get_id()
+        if k in cache:
+            return cache[k]
+        r = _ev(t)
+        cache[k] = r
+        return r
+
+    def _ev(t):
+        if z3.is_rational_value(t):
+            return t.numerator_as_long() / t.denominator_as_long()
+        if z3.is_int_value(t):
+            return t.as_long()
+        if z3.is_true(t):
+            return True
+        if z3.is_false(t):
+            return False
+        d = t.decl()
+        kind = d.kind()
+        ch = t.children()
+        if kind == z3.Z3_OP_UNINTERPRETED:
+            if not ch:
+                v = model.eval(t, model_completion=True)
+                if z3.is_algebraic_value(v):
+                    v = v.approx(20)
+                return ev(v)
+            f = _MATH_UF.get(d.name())
+            if f is None:
+                return ev(model.eval(t, model_completion=True))
+            return f(*[ev(c) for c in ch])
+        if kind == z3.Z3_OP_ADD:
+            return sum(ev(c) for c in ch)
+        if kind == z3.Z3_OP_MUL:
+            r = 1
+            for c in ch:
+                r = r * ev(c)
+            return r
+        if kind == z3.Z3_OP_SUB:
+            r = ev(ch[0])
+            for c in ch[1:]:
+                r = r - ev(c)
+            return r
+        if kind == z3.Z3_OP_UMINUS:
+            return -ev(ch[0])
+        if kind == z3.Z3_OP_DIV:
+            return ev(ch[0]) / ev(ch[1])
+        if kind == z3.Z3_OP_IDIV:
+            return ev(ch[0]) // ev(ch[1])
+        if kind == z3.Z3_OP_MOD:
+            return ev(ch[0]) % ev(ch[1])
+        if kind == z3.Z3_OP_TO_REAL:
+            return ev(ch[0])
+        if kind == z3.Z3_OP_TO_INT:
+            return math.floor(ev(ch[0]))
+        if kind == z3.Z3_OP_ITE:
+            return ev(ch[1]) if ev(ch[0]) else ev(ch[2])
+        if kind == z3.Z3_OP_AND:
+            return all(ev(c) for c in ch)
+        if kind == z3.Z3_OP_OR:
+            return any(ev(c) for c in ch)
+        if kind == z3.Z3_OP_NOT:
+            return not ev(ch[0])
+        if kind == z3.Z3_OP_IMPLIES:
+            return (not ev(ch[0])) or ev(ch[1])
+        if kind == z3.Z3_OP_EQ:
+            return ev(ch[0]) == ev(ch[1])
+        if kind == z3.Z3_OP_DISTINCT:
+            vs = [ev(c) for c in ch]
+            return len(set(vs)) == len(vs)
+        if kind == z3.Z3_OP_LE:
+            return ev(ch[0]) <= ev(ch[1])
+        if kind == z3.Z3_OP_LT:
+            return ev(ch[0]) < ev(ch[1])
+        if kind == z3.Z3_OP_GE:
+            return ev(ch[0]) >= ev(ch[1])
+        if kind == z3.Z3_OP_GT:
+            return ev(ch[0]) > ev(ch[1])
+        if kind == z3.Z3_OP_POWER:
+            return ev(ch[0]) ** ev(ch[1])
+        raise ValueError("eval_numeric: unsupported operator %s" % d.name())
+    return ev(e)
+
+
 def concretize_struct(v, model):
     """evaluate a structure of symbolic values under a model -> plain JSON-able python"""
     if isinstance(v, (SInt,)):
         return model.eval(v.e, model_completion=True).as_long()
     if isinstance(v, SReal):
+        if _has_uf(v.e):
+            return float(eval_numeric(v.e, model))
         r = model.eval(v.e, model_completion=True)
         if z3.is_rational_value(r):
             return float(Fraction(r.numerator_as_long(), r.denominator_as_long()))
